@@ -161,6 +161,21 @@ class Spec:
             if st.has(ch):
                 return st.get(ch)
             return R(ch)
+        if isinstance(expr, ast.BoolOp):
+            # `a and b` / `a or b` evaluate to one of their operands: exact whenever the operands up to the deciding one are
+            # known constants (a decision split into temporaries - `busy = x in (..)`; `flag = isinstance(..) and busy` - stays decided)
+            is_and = isinstance(expr.op, ast.And)
+            last = None
+            for operand in expr.values:
+                v = self.value(operand, st, depth)
+                if not is_const(v):
+                    last = None
+                    break
+                if bool(v[1]) != is_and:
+                    return v
+                last = v
+            if last is not None:
+                return last
         if self._bool_typed(expr):
             t = self.truth(expr, st, depth)
             if t is not None:
